@@ -14,6 +14,55 @@ CLAIMED = {
         text="Seeded exploration (24k runs quick, 2M thorough) of structured terminating programs and raw word images at random origins, with input streams that end at arbitrary bytes; the real loader and VM run in-process and every load state, executed (pc,instr) event, output byte, consumed input byte, stop reason/status and the complete final machine state are compared with an independent reference VM. Sampling, not proof: a clean batch is evidence over the explored seeds.",
         note="Trusted: RefVm (ISA tables + README), the guarded hooks (typed unwind in front of process::exit, tick/execute events, simulated stdin), fd-level capture. Exit statuses are observed as unwinds in-process; world B ties them to real processes.",
     ),
+    "C09": dict(
+        category="exploration",
+        ref="DESIGN.md §5 C09, §3.2",
+        technique="deterministic simulation: seeded debugger schedules (pause points) over seeded programs, differential against the undebugged run of the same image on the real VM",
+        text="Seeded exploration of (program, command script, transport, separators, end-of-input point); the debugger's commands are the schedule that decides at which instruction boundaries the program is paused. Verdict is model-free: program stdout, final registers/PC/CC/65,536 words and the process end must equal the undebugged run. Sampling, not proof.",
+        note="Trusted: the guarded hooks and fd capture; the undebugged real run as reference. Programs take no input in sessions.",
+    ),
+    "C10": dict(
+        category="exploration",
+        ref="DESIGN.md §5 C10, §3.7.2",
+        technique="deterministic simulation: seeded command histories against the real debugger in-process, lockstep refinement check of every pause against a reference debugger on a reference VM",
+        text="Every pause of every simulated session is compared (executed-instruction count, registers, PC, CC, all memory) with RefDbg, an executable statement of help.txt and the property; strict where documentation is explicit, adopted (and counted) where silent. Sampling, not proof.",
+        note="Trusted: RefDbg/RefVm, hooks (pause snapshots, exec events). Histories bounded to 14 commands, programs to ~100 statements.",
+    ),
+    "C11": dict(
+        category="exploration",
+        ref="DESIGN.md §5 C11",
+        technique="deterministic simulation: breakpoints added/removed between resumes of running loops (fault: late_breakpoint), lockstep check of pause points and breakpoint list against a reference set",
+        text="Breakpoint list after load and at every pause equals the reference set (sorted, unique); every arrival at a marked address pauses before it executes, removed addresses never pause, re-arming across loop revisits, resets and gotos. Sampling, not proof.",
+        note="Trusted: RefDbg, hooks. .break placement known to the generator by construction.",
+    ),
+    "C12": dict(
+        category="exploration",
+        ref="DESIGN.md §5 C12",
+        technique="deterministic simulation: reset as crash-and-restart injected at arbitrary points of mutating histories; model-free comparison with the load snapshot at every pause",
+        text="After arbitrary histories of execution, move, goto, eval and self-modifying stores, the state after reset and the debugger's saved copy at every pause equal the load snapshot in all 65,536 words and registers; continuation after reset follows the reference. Sampling, not proof.",
+        note="Trusted: accessor to the saved initial state and the load snapshot.",
+    ),
+    "C13": dict(
+        category="exploration",
+        ref="DESIGN.md §5 C13",
+        technique="deterministic simulation: frame-condition check between consecutive pause snapshots of seeded sessions with targets concentrated on address-space boundaries",
+        text="History half decided by simulation: around every non-resuming command the set of changed locations is at most the named target with the requested value; out-of-user-space targets in all three spellings (incl. 16-bit overflow) change nothing; in-range targets take effect. The all-addresses half of the quantifier is only sampled (boundary-biased).",
+        note="Trusted: RefDbg address arithmetic in unbounded integers; hooks.",
+    ),
+    "C15": dict(
+        category="exploration",
+        ref="DESIGN.md §5 C15",
+        technique="deterministic simulation: eval issued at PCs reached by seeded stepping/goto histories, effect compared with the reference VM executing the instruction at that PC",
+        text="History half decided: eval of register/immediate/base+offset forms, label operands before and after the PC, register jumps, output traps and stack instructions at arbitrary reachable PCs equals RefVm; refused forms change nothing and never end the session. Literal PC offsets and link values not generated (left unspecified by the property).",
+        note="Trusted: RefVm, generator-known encodings; far labels adopted.",
+    ),
+    "C16": dict(
+        category="exploration",
+        ref="DESIGN.md §5 C16",
+        technique="deterministic simulation with a simulated clock (run-loop ticks): online no-spin monitor and bounded-liveness budget once the command stream has ended",
+        text="Bounded liveness: never more than 24 idle ticks in a row, session ends within 4*(instructions+commands)+64 ticks of the simulated clock, no panic when resuming at PC=0xFFFF / outside user space / on HALT. Sampling, not proof.",
+        note="Trusted: tick hook = one run-loop iteration; RefDbg for the instruction count.",
+    ),
 }
 
 NOT_APPLICABLE = {
@@ -26,7 +75,7 @@ NOT_APPLICABLE = {
     "C18": "pure function of (flag, program); no stream, fault or history (DESIGN.md §5 C18)",
 }
 
-PENDING = {'C06': 'claimed in DESIGN.md but its check is not built yet in this commit; will move to checks when registered', 'C08': 'claimed in DESIGN.md but its check is not built yet in this commit; will move to checks when registered', 'C09': 'claimed in DESIGN.md but its check is not built yet in this commit; will move to checks when registered', 'C10': 'claimed in DESIGN.md but its check is not built yet in this commit; will move to checks when registered', 'C11': 'claimed in DESIGN.md but its check is not built yet in this commit; will move to checks when registered', 'C12': 'claimed in DESIGN.md but its check is not built yet in this commit; will move to checks when registered', 'C13': 'claimed in DESIGN.md but its check is not built yet in this commit; will move to checks when registered', 'C14': 'claimed in DESIGN.md but its check is not built yet in this commit; will move to checks when registered', 'C15': 'claimed in DESIGN.md but its check is not built yet in this commit; will move to checks when registered', 'C16': 'claimed in DESIGN.md but its check is not built yet in this commit; will move to checks when registered', 'C19': 'claimed in DESIGN.md but its check is not built yet in this commit; will move to checks when registered', 'C20': 'claimed in DESIGN.md but its check is not built yet in this commit; will move to checks when registered'}
+PENDING = {'C06': 'claimed in DESIGN.md but its check is not built yet in this commit; will move to checks when registered', 'C08': 'claimed in DESIGN.md but its check is not built yet in this commit; will move to checks when registered', 'C14': 'claimed in DESIGN.md but its check is not built yet in this commit; will move to checks when registered', 'C19': 'claimed in DESIGN.md but its check is not built yet in this commit; will move to checks when registered', 'C20': 'claimed in DESIGN.md but its check is not built yet in this commit; will move to checks when registered'}
 
 def main():
     checks = []
